@@ -30,6 +30,10 @@ func (p *verifPassWriter) Close() error      { p.closed = true; return nil }
 func (p *verifPassWriter) Flush() error      { return nil }
 func (p *verifPassWriter) Reset(w io.Writer) { p.w = w; p.closed = false }
 
+// VerifPassEarlyEOF: the pass-through reader reports io.EOF together with the
+// last bytes (as compress/zlib may) instead of in a separate call.
+var VerifPassEarlyEOF bool
+
 // verifPassReader yields the source bytes unchanged.
 type verifPassReader struct{ r io.Reader }
 
@@ -37,7 +41,13 @@ func (p *verifPassReader) Read(b []byte) (int, error) {
 	if p.r == nil {
 		return 0, io.EOF
 	}
-	return p.r.Read(b)
+	n, err := p.r.Read(b)
+	if err == nil && n > 0 && VerifPassEarlyEOF {
+		if l, ok := p.r.(interface{ Len() int }); ok && l.Len() == 0 {
+			return n, io.EOF
+		}
+	}
+	return n, err
 }
 func (p *verifPassReader) Close() error { return nil }
 func (p *verifPassReader) Reset(r io.Reader, dict []byte) error {
